@@ -397,6 +397,10 @@ class kFlowDecomp(pathmodel.AbstractPathModelDAG):
         start_time = time.perf_counter()
         (paths, weights) = self.G.decompose_using_max_bottleneck(self.flow_attr)
 
+        # An all-zero flow is decomposed into no path at all: there is nothing to pad k paths with
+        if len(paths) == 0:
+            return False
+
         # The weights are reported in the requested weight type, as in the MILP route
         if self.weight_type == int:
             if any(weight != round(weight) for weight in weights):
